@@ -41,11 +41,23 @@ def vocab():
         import json
         import os
         p = os.path.join(os.path.dirname(os.path.dirname(os.path.abspath(__file__))), "spec", "vocabulary.json")
+        global _VOCAB_CONSTS
         try:
-            _VOCAB = set(json.load(open(p))["fns"])
+            d = json.load(open(p))
+            _VOCAB = set(d["fns"])
+            _VOCAB_CONSTS = set(d.get("consts", []))
         except Exception:
             _VOCAB = set()
+            _VOCAB_CONSTS = set()
     return _VOCAB
+
+
+_VOCAB_CONSTS = None
+
+
+def vocab_consts():
+    vocab()
+    return _VOCAB_CONSTS
 
 
 # ---------------------------------------------------------------- expression helpers
@@ -511,7 +523,7 @@ class Walker:
         elif decl == "std::ops::FromResidual::from_residual":
             a = args[0]
             if isinstance(a, tuple) and a[0] == "resid":
-                val = ("errret", a[1], (f.get("targs") or [""])[0])
+                val = residual_value(a[1], (f.get("targs") or [""])[0])
             else:
                 val = ("call", name, args, bi)
         elif is_transparent(name) or is_transparent(decl):
@@ -679,6 +691,22 @@ class Walker:
 
 def _call_is(e, suffix):
     return isinstance(e, tuple) and e[0] == "call" and (e[1] == suffix or e[1].endswith("::" + suffix) or e[1].endswith(suffix))
+
+
+def residual_value(y, selfty):
+    """what `y?` returns, as the constructor tree an explicit `return Err(e)` would build for the function's return type
+    (`selfty` = Self of the FromResidual instance): later `?` / `match` on the result of an inlined helper can then be folded"""
+    er = err_of(y)
+    res_err = ("agg", "adt", "std::result::Result", "Err", 1, (er,))
+    if selfty.startswith("std::result::Result<"):
+        return res_err
+    if selfty.startswith("std::option::Option<"):
+        return ("agg", "adt", "std::option::Option", "None", 0, ())
+    if selfty.startswith("std::task::Poll<std::result::Result<"):
+        return ("agg", "adt", "std::task::Poll", "Ready", 0, (res_err,))
+    if selfty.startswith("std::task::Poll<std::option::Option<std::result::Result<"):
+        return ("agg", "adt", "std::task::Poll", "Ready", 0, (("agg", "adt", "std::option::Option", "Some", 1, (res_err,)),))
+    return ("errret", y, selfty)
 
 
 def known_try(y):
